@@ -146,22 +146,31 @@ def treeValidator (layouts : List RecLayout) (rules : List (String × Stmt)) (co
                  b64 := b64, frb := frb } p.2 v
     | none => (some "<no rules>", v)
 
+/-- `record.String()` (a nil record pointer renders as "") -/
+def lineOf (m : Model) (k : Kind) (r : Option Vals) : Bytes :=
+  match r with
+  | some v => render m.b64 (m.layout k).write true v
+  | none => []
+
+/-- the bytes `writeLine` emits between the framing: the record itself (ASCII), its transliteration
+(EBCDIC), or for record 52 under EBCDIC the transliteration of `toString(false)` followed by the image
+bytes that `String()` renders.  `none` = the encoder returned an error. -/
+def bodyOf (m : Model) (ebcdic : Bool) (k : Kind) (r : Option Vals) : Option Bytes :=
+  if ebcdic then
+    match k, r with
+    | .ivData, some v =>
+      (m.cm.encode (render m.b64 (m.layout k).write false v)).map
+        (· ++ ((m.layout k).write.filter (·.imageOnly)).flatMap (fun f => renderField m.b64 f v))
+    | _, _ => m.cm.encode (lineOf m k r)
+  else some (lineOf m k r)
+
 /-- `writeLine`: prefix from `len(record.String())`, then the per-encoding body.
 `none` = the writer returns an error. -/
 def writeLine (m : Model) (e : Enc) (k : Kind) (r : Option Vals) : Option Bytes :=
-  let L := m.layout k
-  let line : Bytes := match r with
-    | some v => render m.b64 L.write true v
-    | none => []
+  let n := (lineOf m k r).length
   let pre : Option Bytes :=
-    if e.lp then (if validSizeInt line.length then some (be32 line.length) else none) else some []
-  let body : Option Bytes :=
-    if e.ebcdic then
-      match k, r with
-      | .ivData, some v => (m.cm.encode (render m.b64 L.write false v)).map (· ++ v.s "ImageData")
-      | _, _ => m.cm.encode line
-    else some line
-  match pre, body with
+    if e.lp then (if validSizeInt n then some (be32 n) else none) else some []
+  match pre, bodyOf m e.ebcdic k r with
   | some p, some b => some (p ++ b ++ (if e.lp then [] else [0x0A]))
   | _, _ => none
 
@@ -293,11 +302,11 @@ def rstep (m : Model) (e : Enc) (s : RState) (line : Bytes) : Except (RState × 
     match (m.layout .fileHeader).parseRec id m.now (dec line) s.header with
     | .panic => .error (s, s.err .field "<panic>")
     | .done v =>
+      -- parsed into a copy: a rejected record leaves `r.File.Header` as it was.
       -- Parse assigns fields only when its length guard passes; then the header differs from the template
       let touched := runeCount (dec line) == 80
-      let s := { s with header := v, headerUntouched := s.headerUntouched && !touched }
       match m.validateK .fileHeader v with
-      | (none, v') => .ok { s with header := v' }
+      | (none, v') => .ok { s with header := v', headerUntouched := s.headerUntouched && !touched }
       | (some f, _) => .error (s, s.err .field f)
   | some .cashLetterHeader =>
     let s := { s with recordName := "CashLetterHeader" }
@@ -336,7 +345,7 @@ def rstep (m : Model) (e : Enc) (s : RState) (line : Bytes) : Except (RState × 
     let s := { s with recordName := "CheckDetailAddendumA" }
     if !hasChecks s then .error (s, s.err .file "CheckDetailAddendumA")
     else do
-      let v ← pv s .cdAddA (dec (ibm1047 m.frb line)) ((m.layout .cdAddA).new m.now)
+      let v ← pv s .cdAddA (dec (ibm1047 (m.frb && e.ebcdic) line)) ((m.layout .cdAddA).new m.now)
       pure (s.updLastCheck (fun it => { it with addA := it.addA ++ [v] }))
   | some .cdAddB =>
     let s := { s with recordName := "CheckDetailAddendumB" }
@@ -466,7 +475,6 @@ def rstep (m : Model) (e : Enc) (s : RState) (line : Bytes) : Except (RState × 
       match (m.layout .fileControl).parseRec id m.now (dec line) s.control with
       | .panic => .error (s, s.err .field "<panic>")
       | .done v =>
-        let s := { s with control := v }
         match m.validateK .fileControl v with
         | (none, v') => .ok { s with control := v' }
         | (some f, _) => .error (s, s.err .field f)
@@ -482,7 +490,8 @@ def readLines (m : Model) (e : Enc) : List Bytes → RState → RState × Option
     if l.length < 80 then (s, some (s.err .file "RecordLength"))
     else match rstep m e s l with
       | .ok s' => readLines m e r s'
-      | .error (s', er) => (s', some er)
+      -- `Reader.error` stamps `r.lineNum`, which `parseLine` never changes
+      | .error (s', er) => (s', some { er with line := s.lineNum })
 
 def initState (m : Model) : RState :=
   { header := (m.layout .fileHeader).new m.now, control := {} }
